@@ -11,7 +11,7 @@
    map from the document's labels to nodes: the known node for a label the caller fixed
    (shared dict, preserve_bnode_ids), otherwise a blank node that occurs nowhere in [prev];
    [supply_ok fresh]: the supply never repeats and stays clear of ids in use. *)
-From RV Require Import Parse.Model Parse.Proofs Parse.General Parse.Machines Parse.MachineProofs.
+From RV Require Import Parse.Model Parse.Proofs Parse.General Parse.Machines Parse.MachineProofs Parse.MachineRefine.
 
 (* The tie between model and checker: on every well-formed case on which no known-finding
    trigger fires, the specification checker accepts what the model computes.  [wf] is the shape
@@ -308,6 +308,33 @@ Theorem C12_std_nid_ok :
   (forall s c, (1000 <= std_nid s c)%N /\ N.even (std_nid s c) = true).
 Proof. exact std_nid_ok. Qed.
 Print Assumptions C12_std_nid_ok.
+
+(* ================= round 5: the two model layers agree - by theorem ================================= *)
+(* The state machines (uuid4 draw counter, N3 sink counter, label-keeping parsers) refine the abstract
+   model: take as abstract supply of a call the function [m_supply (m_final g d)] read off the
+   machine's table when the call ends - label |-> [nid k 0] (k = number of the uuid4 draw, AUuid) or
+   [nid sid c] (sid = the sink's draw, c = the per-call counter, ASink); AKeep calls use no supply.
+   Then the abstract call IS the machine's call: same store list, same long-lived dicts - for all
+   three machine kinds and every kind of call (fresh dict, the caller's bnode_context dict, a
+   long-lived parser object, preserve_bnode_ids, a document cut off by an error: [d] is arbitrary). *)
+Theorem C12_machines_refine_abstract_call : forall nid g d,
+  call_step (m_supply (m_final nid g d)) (g_envs g) (g_store g) d
+  = (g_envs (m_call nid g d), g_store (m_call nid g d)).
+Proof. exact refine_call. Qed.
+Print Assumptions C12_machines_refine_abstract_call.
+
+(* lifted over every sequence of calls, as an invariant ... *)
+Theorem C12_machines_refine_abstract : forall nid ds g, refines nid g ds.
+Proof. exact refine_run. Qed.
+Print Assumptions C12_machines_refine_abstract.
+
+(* ... and as one equation: the abstract [run] of Parse/Model.v with the supply
+   [call number -> label -> node] that the machine's draws define gives exactly the machine's
+   (raised?, store content) sequence. *)
+Theorem C12_machines_refine_abstract_run : forall nid ds g,
+  run (fresh_of (m_supplies nid g ds)) 0 (g_envs g) (g_store g) ds = m_obs nid g ds.
+Proof. exact refine_run_obs. Qed.
+Print Assumptions C12_machines_refine_abstract_run.
 
 Example C12_nonvacuous :
   wf w_ok /\ kf w_ok = 0%N /\ length (model_obs w_ok) = 3%nat /\ spec_ok w_ok (model_obs w_ok) = true.
